@@ -21,6 +21,10 @@ Monitor shape: parameter grids + independent closed-form oracle observed on ever
 
 Keys:  fn=<function> placement=<none|rigid|mirror> [engine= angle= cap= ...] sym=<symptom>
        prim=<class> placement=<..> [edit=<op>] read=<value> sym=<symptom>
+       round-4 input classes (first symptom in a fixed check order only):
+       fn=<function> <size=small|large | aspect=extreme | profile=open_ring> sym=..
+       fn=sweep_polygon path=<near_straight|smooth_planar> pole=<through|start|near|away> sym=not_a_prism
+       prim=<class> <size=..|aspect=..> sym=..     prim=any edit=<param_write:<route> | move:below_1e-8> sym=..
 """
 
 from __future__ import annotations
@@ -42,8 +46,12 @@ RULE = (
     "parameters from enumerated grids (section counts from the minimum upwards, odd and even, partial "
     "revolutions with/without caps, polygons with 0-3 holes, three triangulation engines, open/closed/bent "
     "sweep paths) x random sizes x placement none/rigid/mirrored; or one step of an edit history (1-5 edits) "
-    "on a primitive. distinct = distinct (function, parameters, placement matrix) or (class, edit history "
-    "prefix); trivial = default parameters without placement."
+    "on a primitive. Round 4 adds enumerated input classes: the same shapes at sizes 1e-6 / 1e-7 / 1e9 / 1e12, "
+    "radius/height ratios 1e-9 .. 1e9, revolve profiles given as open rings, sweeps along paths that are straight "
+    "up to 1e-3 (or smooth planar S curves) placed along, near and away from +-Z, parameter arrays written "
+    "through 7 numpy write routes (kept view, out=, copyto, flat, ufunc.at, putmask, place) and moves below 1e-8 "
+    "(400 in a row, or one on a primitive of size 1e-6). distinct = distinct (function, parameters, placement "
+    "matrix) or (class, edit history prefix); trivial = default parameters without placement."
 )
 ANCHORS = [
     "trimesh/creation.py:revolve",
@@ -155,16 +163,26 @@ class Judge:
     `inherited`: symptoms already shown by an object without history (reported there).
     """
 
-    def __init__(self, run, core, spec, orient="", inherited=()):
+    def __init__(self, run, core, spec, orient="", inherited=(), first_only=False):
         self.run, self.core, self.orient, self.spec = run, core, orient, spec
         self.fired = set()
         self.inherited = set(inherited)
+        # first_only: input classes of round 4 (extreme size / aspect, open rings, near-straight sweeps,
+        # parameter write routes, moves below 1e-8).  One broken object shows many symptoms; the checks run
+        # in a fixed order (topology first) and only the first symptom is reported, so one defect has one
+        # key per function instead of one per (function, symptom).
+        self.first_only = first_only
+        self.reported = 0
 
     def bad(self, sym, what, **info):
         self.fired.add(sym)
         if sym in self.inherited:
             self.run.count("symptom_inherited_from_fresh")
             return
+        if self.first_only and self.reported:
+            self.run.count("later_symptom_of_a_reported_object")
+            return
+        self.reported += 1
         case = dict(self.spec)
         case["observed"] = info
         mid = (" " + self.orient) if (self.orient and any(o in sym for o in ORIENT_SYMS)) else ""
@@ -343,7 +361,8 @@ def case_revolved(run, spec):
         extra = " angle=%s cap=%d" % ("full" if full else "partial", int(cap))
         if a.get("sections") == 1:
             extra += " sections=1"
-    J = Judge(run, "fn=%s%s" % (fn, extra), spec, orient="placement=%s" % pl)
+    cls = spec.get("cls")
+    J = Judge(run, "fn=%s%s%s" % (fn, extra, (" " + cls) if cls else ""), spec, orient="placement=%s" % pl, first_only=bool(cls))
     N = None
     if fn == "cylinder":
         mesh = _call(J, c.cylinder, radius=a["radius"], height=a["height"], sections=a.get("sections"), **kw)
@@ -418,7 +437,9 @@ def case_box(run, spec):
 
     T = None if spec.get("T") is None else np.array(spec["T"], dtype=np.float64)
     a = spec["args"]
-    J = Judge(run, "fn=box%s" % (" via=bounds" if "bounds" in a else ""), spec, orient="placement=%s" % spec["placement"])
+    cls = spec.get("cls")
+    J = Judge(run, "fn=box%s%s" % (" via=bounds" if "bounds" in a else "", (" " + cls) if cls else ""), spec,
+              orient="placement=%s" % spec["placement"], first_only=bool(cls))
     if "bounds" in a:
         b = np.array(a["bounds"], dtype=np.float64)
         mesh = _call(J, c.box, bounds=b)
@@ -443,7 +464,8 @@ def case_icosphere(run, spec):
     from trimesh import creation as c
 
     a = spec["args"]
-    J = Judge(run, "fn=icosphere", spec)
+    cls = spec.get("cls")
+    J = Judge(run, "fn=icosphere%s" % ((" " + cls) if cls else ""), spec, first_only=bool(cls))
     R = a["radius"]
     prev = None
     for s in range(0, a["max_subdivisions"] + 1):
@@ -452,8 +474,13 @@ def case_icosphere(run, spec):
         if mesh is None:
             return
         V = np.asarray(mesh.vertices)
-        if np.abs(np.linalg.norm(V, axis=1) - R).max() > 1e-12 * R * 10:
-            J.bad("off_sphere", "icosphere vertices are not on the sphere", worst=float(np.abs(np.linalg.norm(V, axis=1) - R).max()))
+        off = float(np.abs(np.linalg.norm(V, axis=1) - R).max())
+        if off > RTOL * R:
+            J.bad("off_sphere", "icosphere vertices are not on the sphere", worst=off)
+        elif off > 1e-11 * R:
+            # observation: the radius is refined as `vertices += unit * (radius - 1)`; for radius << 1 the
+            # relative error is ~1e-16 / radius (2e-11 at 1e-6, 7e-10 at 1e-7) - inside RTOL, no finding
+            run.count("icosphere_radius_cancellation_observed")
         if len(mesh.faces) != 20 * 4 ** s or len(V) != 10 * 4 ** s + 2:
             J.bad("face_count", "icosphere does not have 20*4^s faces / 10*4^s+2 vertices", faces=len(mesh.faces), vertices=len(V), s=s)
         res = judge_mesh(J, mesh, {"smooth_volume": 4.0 / 3.0 * math.pi * R ** 3, "scale": 2 * R})
@@ -532,8 +559,10 @@ def case_extrude(run, spec):
     a = spec["args"]
     eng = a.get("engine")
     fn = spec["fn"]
-    J = Judge(run, "fn=%s engine=%s %s" % (fn, eng, _poly_class(a["polygon"])), spec,
-              orient="placement=%s height=%s" % (spec["placement"], "neg" if a["height"] < 0 else "pos"))
+    cls = spec.get("cls")
+    # (the collinearity class is measured with an absolute epsilon: it is not part of the key of scaled polygons)
+    J = Judge(run, "fn=%s engine=%s %s" % (fn, eng, cls if cls else _poly_class(a["polygon"])), spec,
+              orient="placement=%s height=%s" % (spec["placement"], "neg" if a["height"] < 0 else "pos"), first_only=bool(cls))
     area, per, pts2 = _poly_measures(a["polygon"])
     h = a["height"]
     kw = {} if T is None else {"transform": T}
@@ -577,7 +606,12 @@ def case_triangulate(run, spec):
     sa = 0.5 * ((tri[:, 1, 0] - tri[:, 0, 0]) * (tri[:, 2, 1] - tri[:, 0, 1]) - (tri[:, 1, 1] - tri[:, 0, 1]) * (tri[:, 2, 0] - tri[:, 0, 0]))
     if abs(np.abs(sa).sum() - area) > 1e-9 * area:
         J.bad("area_mismatch", "triangle areas do not add up to the polygon area", got=float(np.abs(sa).sum()), want=area)
-    if not (np.all(sa > 0) or np.all(sa < 0)):
+    if (sa == 0).any():
+        # observation: a zero-area triangle over collinear vertices keeps a triangulation conforming (manifold
+        # engine); it has no winding, so it is not "mixed winding"
+        run.count("triangulation_zero_area_triangles_observed")
+        run.state("zero_area_triangle", (eng, _poly_class(a["polygon"])))
+    if (sa > 0).any() and (sa < 0).any():
         J.bad("mixed_winding", "triangles of one triangulation wind both ways", positive=int((sa > 0).sum()), negative=int((sa < 0).sum()), zero=int((sa == 0).sum()))
     # observation only (not part of the statement): a vertex in the interior of a triangle edge
     tj = 0
@@ -628,6 +662,8 @@ def _sweep_path(a):
         P[-1] = P[0]
         Q = np.array(a.get("frame", np.eye(4).tolist()), dtype=np.float64)
         return _tp(P, Q)
+    if kind == "explicit":
+        return np.array(a["points"], dtype=np.float64)
     raise ValueError(kind)
 
 
@@ -640,21 +676,39 @@ def case_sweep(run, spec):
     cap, connect = a.get("cap", True), a.get("connect", True)
     eng = a.get("engine")
     holes = len(a["polygon"].get("holes") or [])
-    J = Judge(run, "fn=sweep_polygon path=%s cap=%d connect=%d engine=%s %s twist=%d" % (
-        a["path_kind"], int(cap), int(connect), eng, _poly_class(a["polygon"]), int(a.get("angles") is not None)), spec)
+    cls = spec.get("cls")
+    if cls:
+        J = Judge(run, "fn=sweep_polygon %s" % cls, spec, first_only=True)
+    else:
+        J = Judge(run, "fn=sweep_polygon path=%s cap=%d connect=%d engine=%s %s twist=%d" % (
+            a["path_kind"], int(cap), int(connect), eng, _poly_class(a["polygon"]), int(a.get("angles") is not None)), spec)
     kw = {}
     if a.get("angles") is not None:
         kw["angles"] = np.array(a["angles"], dtype=np.float64)
     if eng:
         kw["engine"] = eng
     mesh = _call(J, c.sweep_polygon, _poly(a["polygon"]), path, cap=cap, connect=connect, refuse=(NotImplementedError,), **kw)
-    run.case("sweep:%s:%s" % (a["path_kind"], eng), repr(sorted((k, repr(v)) for k, v in a.items())))
+    run.case("sweep:%s:%s" % (a.get("path_class") or a["path_kind"], eng), repr(sorted((k, repr(v)) for k, v in a.items())))
     if mesh is None:
         return
     area, per, pts2 = _poly_measures(a["polygon"])
     exp = {"scale": float(np.linalg.norm(np.ptp(path, axis=0))) + float(np.abs(pts2).max())}
     wt = (closed and connect) or cap
     exp["watertight"] = wt
+    if a.get("near_prism"):
+        # A path that is straight up to a sideways wiggle of `eps` (relative to its segments), or a
+        # finely sampled smooth planar curve whose tangent returns to where it started: the swept solid is
+        # a prism up to O(eps) (Pappus: area x length of the centroid's path), wherever the path is placed.
+        # eps <= 1e-3 gives deviations <= 3e-3 (measured along X / generic directions); the bound is 2e-2.
+        res = judge_mesh(J, mesh, exp)
+        if res and res["topo"]["watertight"] and res["topo"]["consistent"]:
+            L = float(np.linalg.norm(np.diff(path, axis=0), axis=1).sum())
+            v, ar = res["own"]["volume"], res["own"]["area"]
+            run.state("near_prism_class", cls)
+            if abs(v - area * L) > 2e-2 * area * L or abs(ar - (per * L + 2 * area)) > 2e-2 * (per * L + 2 * area):
+                J.bad("not_a_prism", "sweep along a (nearly) straight / smooth planar path: volume is not area x length, or area not "
+                      "perimeter x length + 2 area, within 2%", volume=v, prism_volume=area * L, area=ar, prism_area=per * L + 2 * area)
+        return
     if a["path_kind"] == "straight" and a.get("angles") is None:
         L = a["length"]
         exp["area"] = per * L + (2 * area if cap else 0.0)
@@ -806,6 +860,64 @@ def _apply_edit(prim, kind, p, U, ed):
     elif op == "multi":
         for sub in ed["edits"]:
             p, U = _apply_edit(prim, kind, p, U, sub)
+    elif op == "repeat":
+        # the same (small) edit many times, nothing read in between
+        for _ in range(int(ed["times"])):
+            p, U = _apply_edit(prim, kind, p, U, ed["edit"])
+    elif op == "param_write":
+        # A parameter array (`primitive.extents`, `primitive.transform`, `primitive.center`) is written
+        # through a numpy route other than assignment / indexing / the in-place operators.  The model only
+        # knows the new values; deltas are taken from the model so that the library's array is touched by
+        # nothing but the write under test.
+        route, param = ed["route"], ed["param"]
+        new = np.array(ed["value"], dtype=np.float64)
+        if param == "extents":
+            arr = P.extents
+            cur = np.array(p["extents"], dtype=np.float64)
+            target = new
+            where = np.ones(3, dtype=bool)
+            index = (np.arange(3),)
+        else:
+            arr = P.transform
+            cur = U.copy()
+            target = U.copy()
+            target[:3, 3] = new
+            where = np.zeros((4, 4), dtype=bool)
+            where[:3, 3] = True
+            index = (np.arange(3), np.array([3, 3, 3]))
+        if not isinstance(arr, np.ndarray) or arr.shape != target.shape:
+            raise ValueError("parameter is not handed out as an array")
+        if route == "kept_view":
+            # the handle is taken first, then the mesh is built (or not), then the handle is written
+            view = P.center if param == "center" else (arr[:3, 3] if param == "transform" else arr[0:3])
+            if ed.get("read_between", True):
+                _ = prim.vertices
+            if ed.get("inplace_op"):
+                view += new - cur[index]
+            else:
+                view[:] = new
+        else:
+            if ed.get("read_between", True):
+                _ = prim.vertices
+            if route == "ufunc_out":
+                np.add(arr, target - cur, out=arr)
+            elif route == "copyto":
+                np.copyto(arr, target)
+            elif route == "flat_setitem":
+                for k in np.flatnonzero(where):
+                    arr.flat[int(k)] = target.flat[int(k)]
+            elif route == "ufunc_at":
+                np.add.at(arr, index, (target - cur)[index])
+            elif route == "putmask":
+                np.putmask(arr, where, target)
+            elif route == "place":
+                np.place(arr, where, new)
+            else:
+                raise ValueError(route)
+        if param == "extents":
+            p["extents"] = [float(x) for x in new]
+        else:
+            U = target
     else:
         raise ValueError(op)
     return p, U
@@ -889,7 +1001,9 @@ def _judge_prim_obj(J, prim, kind, p, U, step_tag):
         r, h = p["radius"], p["height"]
         rad = np.hypot(L[:, 0], L[:, 1])
         if kind == "Cylinder":
-            if np.abs(rad[rad > 1e-9 * scale] - r).max() > 1e-9 * scale or np.abs(np.abs(L[:, 2]) - h / 2).max() > 1e-9 * scale:
+            off = rad[rad > 0.5 * r]  # a cylinder's vertices are on the axis or on a rim
+            if len(off) == 0 or np.abs(off - r).max() > 1e-9 * scale or rad[rad <= 0.5 * r].max(initial=0.0) > 1e-9 * scale \
+                    or np.abs(np.abs(L[:, 2]) - h / 2).max() > 1e-9 * scale:
                 J.bad("mesh_off_surface", "cylinder vertices are not on the rims of radius `radius` at +-height/2", step=step_tag)
         else:
             zc = np.clip(L[:, 2], -h / 2, h / 2)
@@ -986,7 +1100,8 @@ def case_primitive(run, spec):
         # the polygon class is part of an Extrusion's input class
         return "prim=%s%s" % (kind, (" " + _poly_class(params["polygon"])) if kind == "Extrusion" else "")
 
-    J = Judge(run, core(p), spec, orient="placement=%s" % pl0)
+    cls = spec.get("cls")
+    J = Judge(run, core(p) + ((" " + cls) if cls else ""), spec, orient="placement=%s" % pl0, first_only=bool(cls))
     try:
         prim = _new_prim(kind, p, U)
     except BaseException as e:  # noqa
@@ -1003,7 +1118,7 @@ def case_primitive(run, spec):
             except BaseException:  # noqa
                 pass
         op = ed["op"]
-        tag = op if op != "apply_transform" else "apply_transform:" + ed.get("tf", "rigid")
+        tag = ed.get("tag") or (op if op != "apply_transform" else "apply_transform:" + ed.get("tf", "rigid"))
         try:
             p2, U2 = _apply_edit(prim, kind, p, U, ed)
         except ValueError as e:
@@ -1025,9 +1140,17 @@ def case_primitive(run, spec):
             break
         Jf = Judge(run, core(p), dict(spec, fresh_after_step=i), orient="placement=%s" % pl)
         _judge_prim_obj(Jf, fresh, kind, p, U, i)
-        Je = Judge(run, "%s edit=%s" % (core(p), tag), spec, orient="placement=%s" % pl, inherited=Jf.fired)
-        _judge_prim_obj(Je, prim, kind, p, U, i)
-        _compare_fresh(Je, prim, fresh, i)
+        if ed.get("tag"):
+            # round-4 edit classes (write routes into parameter arrays, moves below 1e-8): mechanisms of
+            # Primitive / PrimitiveAttributes / TrackedArray shared by every class, so the class is not
+            # in the key; the comparison with the newly built primitive comes first, one symptom is reported
+            Je = Judge(run, "prim=any edit=%s" % tag, spec, orient="placement=%s" % pl, inherited=Jf.fired, first_only=True)
+            _compare_fresh(Je, prim, fresh, i)
+            _judge_prim_obj(Je, prim, kind, p, U, i)
+        else:
+            Je = Judge(run, "%s edit=%s" % (core(p), tag), spec, orient="placement=%s" % pl, inherited=Jf.fired)
+            _judge_prim_obj(Je, prim, kind, p, U, i)
+            _compare_fresh(Je, prim, fresh, i)
         run.case("prim:%s:%s" % (kind, tag), kind, tuple(hist), repr(spec["params"]), repr(spec.get("edits", [])[: i + 1]),
                  nontrivial=bool(ed.get("pre")))
         run.state("prim_edit", (kind, tag, "pre" if ed.get("pre") else "cold"))
@@ -1263,6 +1386,11 @@ def workload(run):
                 if mine():
                     emit({"fn": "primitive", "kind": kind, "params": dict(p0), "U": np.eye(4).tolist(),
                           "edits": [{"op": "transform_buffer_reused", "value": places[1][1].tolist(), "pre": ["vertices"]}], "rseed": 0})
+        # ---- H. round 4: extreme sizes / aspect ratios, open rings, sweeps along (nearly) straight paths in
+        # every direction, parameter arrays written through numpy routes, moves below 1e-8
+        for spec in _round4_specs(run, rnd, rounds, engines):
+            if mine():
+                emit(spec)
         nhist = 40 if quick else 80
         for _ in range(nhist):
             if run.out_of_time(0.93):
@@ -1270,6 +1398,196 @@ def workload(run):
             if mine():
                 emit(_random_primitive_spec(run, rnd))
     run.note("rounds", rounds)
+
+
+PARAM_WRITE_ROUTES = ["kept_view", "ufunc_out", "copyto", "flat_setitem", "ufunc_at", "putmask", "place"]
+UNIT_PRIMS = [("Box", {"extents": [1.0, 2.0, 3.0]}), ("Sphere", {"radius": 1.5, "subdivisions": 1}),
+              ("Cylinder", {"radius": 2.0, "height": 3.0, "sections": 12}),
+              # (64: the number of facets a Capsule has whatever `sections` says - open finding 3 - so that symptom
+              # stays with its own key)
+              ("Capsule", {"radius": 1.0, "height": 4.0, "sections": 64}),
+              ("Extrusion", {"polygon": FIXED_POLYGONS[3], "height": 1.5})]
+
+
+def _scaled_polygon(spec, k):
+    out = {"shell": [[float(x) * k, float(y) * k] for x, y in spec["shell"]]}
+    if spec.get("holes"):
+        out["holes"] = [[[float(x) * k, float(y) * k] for x, y in h] for h in spec["holes"]]
+    return out
+
+
+def _perp(d):
+    d = np.asarray(d, dtype=np.float64)
+    a = np.cross(d, [1.0, 0.0, 0.0]) if abs(d[0]) < 0.9 else np.cross(d, [0.0, 1.0, 0.0])
+    a /= np.linalg.norm(a)
+    return a, np.cross(d, a)
+
+
+def _near_prism_path(rnd, pole):
+    """
+    A path that is straight up to a sideways wiggle of 1e-3 of its segment length, by the position of its
+    tangents relative to the +-Z axis (the pole of the spherical coordinates a sweep may take them in):
+      through  straight along +-Z, zigzag inside one vertical plane: the tangent passes through the pole
+      start    the first segment(s) exactly along +-Z, then leaning away
+      near     within 1e-2 rad of +-Z, the azimuth of the lean changes from segment to segment
+      away     more than 0.3 rad from +-Z (control: any of the three wiggles)
+    """
+    U = lambda a, b: float(rnd.uniform(a, b))  # noqa
+    eps = 1e-3
+    sgn = rnd.choice([1.0, -1.0])
+    if pole == "away":
+        while True:
+            d = np.array([U(-1, 1), U(-1, 1), U(-1, 1)])
+            if np.linalg.norm(d) > 0.3 and abs(d[2]) / np.linalg.norm(d) < math.cos(0.3):
+                break
+        d /= np.linalg.norm(d)
+        wiggle = rnd.choice(["planar", "lean", "spatial"])
+    else:
+        d = np.array([0.0, 0.0, sgn])
+        wiggle = {"through": "planar", "start": "lean", "near": "spatial"}[pole]
+        if pole == "near" and rnd.random() < 0.5:
+            # the whole path leans by 1e-4 .. 1e-2 and wiggles in a plane that does not contain Z
+            t, az = 10 ** U(-4, -2), U(0, 2 * math.pi)
+            d = np.array([math.sin(t) * math.cos(az), math.sin(t) * math.sin(az), sgn * math.cos(t)])
+            wiggle = "planar"
+    a, b = _perp(d)
+    if pole == "through":
+        # any vertical plane
+        az = U(0, 2 * math.pi)
+        a = np.array([math.cos(az), math.sin(az), 0.0])
+        b = np.cross(d, a)
+    n = rnd.randint(3, 7)
+    L = U(1, 5)
+    o = np.array([U(-3, 3), U(-3, 3), U(-3, 3)])
+    pts = []
+    for i in range(n):
+        if wiggle == "planar":
+            off = a * eps * (-1) ** i
+        elif wiggle == "spatial":
+            t = U(0, 2 * math.pi)
+            off = (a * math.cos(t) + b * math.sin(t)) * eps
+        else:
+            off = a * eps * max(0, i - rnd.choice([1, 2])) ** 2
+        pts.append(o + d * L * i + off * L)
+    return np.array(pts), wiggle
+
+
+def _round4_specs(run, rnd, rounds, engines):
+    U = lambda a, b: float(rnd.uniform(a, b))  # noqa
+    out = []
+    eng = engines[0] if engines else None
+    ring_rect = [[1.0, 0.0], [2.0, 0.0], [2.0, 1.0], [1.0, 1.0]]
+    ring_tri = [[1.5, 0.0], [2.5, 0.4], [1.7, 1.2]]
+    if rounds == 1:
+        # (a) the same shapes at sizes 1e-6, 1e-7 (10x and more above the 1e-8 merge distance) and 1e9, 1e12
+        for s, tag in ((1e-6, "small"), (1e-7, "small"), (1e9, "large"), (1e12, "large")):
+            cls = "size=%s" % tag
+            for fn, a in [
+                ("cylinder", {"radius": s, "height": s, "sections": None}),
+                ("cylinder", {"radius": s, "height": s, "sections": 256}),
+                ("cone", {"radius": s, "height": s, "sections": None}),
+                ("annulus", {"r_min": s / 2, "r_max": s, "height": s, "sections": None}),
+                ("torus", {"major": s, "minor": s / 4, "major_sections": 32, "minor_sections": 32}),
+                ("uv_sphere", {"radius": s, "count": None}),
+                ("capsule", {"radius": s, "height": s, "count": None}),
+                ("revolve", {"profile": [[x * s, y * s] for x, y in ring_rect + ring_rect[:1]], "angle": 1.0, "cap": True, "sections": 8,
+                             "profile_name": "ring_rect"}),
+                ("box", {"extents": [s, 2 * s, 3 * s]}),
+                ("icosphere", {"radius": s, "max_subdivisions": 3}),
+                ("extrude_polygon", {"polygon": _scaled_polygon(FIXED_POLYGONS[3], s / 10), "height": s, "engine": eng}),
+                ("sweep_polygon", {"polygon": _scaled_polygon(SWEEP_POLYGONS[0], s), "path_kind": "straight", "direction": [0.3, -0.5, 0.8],
+                                   "origin": [0.0, 0.0, 0.0], "length": 5 * s, "n": 3, "cap": True, "engine": eng}),
+            ]:
+                out.append({"fn": fn, "args": a, "placement": "none", "T": None, "cls": cls})
+            for kind, p0 in UNIT_PRIMS:
+                p1 = dict(p0)
+                for k in ("radius", "height"):
+                    if k in p1:
+                        p1[k] = p1[k] * s
+                if "extents" in p1:
+                    p1["extents"] = [x * s for x in p1["extents"]]
+                if "polygon" in p1:
+                    p1["polygon"] = _scaled_polygon(p1["polygon"], s / 10)
+                out.append({"fn": "primitive", "kind": kind, "params": p1, "U": np.eye(4).tolist(), "edits": [], "cls": cls, "rseed": 0})
+        # (b) slender and flat shapes of moderate size: radius / height = 1e-6 (control), 1e-9, 1e+9
+        for r, h in ((1e-3, 1e3), (1e-4, 1e5), (1e5, 1e-4)):
+            cls = "aspect=extreme"
+            step = [[0, 0], [2 * r, 0], [2 * r, 0.4 * h], [r, 0.4 * h], [r, h], [0, h]]
+            for fn, a in [
+                ("cylinder", {"radius": r, "height": h, "sections": 16}),
+                ("cone", {"radius": r, "height": h, "sections": 16}),
+                ("annulus", {"r_min": r / 2, "r_max": r, "height": h, "sections": 16}),
+                ("revolve", {"profile": [[float(x), float(y)] for x, y in step], "angle": None, "cap": False, "sections": 8, "profile_name": "axis_step"}),
+            ]:
+                out.append({"fn": fn, "args": a, "placement": "none", "T": None, "cls": cls})
+            out.append({"fn": "primitive", "kind": "Cylinder", "params": {"radius": r, "height": h, "sections": 16}, "U": np.eye(4).tolist(),
+                        "edits": [], "cls": cls, "rseed": 0})
+        # (c) profiles given as a ring without the repeated first point (what creation.torus passes)
+        for name, ring in (("ring_rect", ring_rect), ("ring_tri", ring_tri)):
+            for angle in (None, math.pi / 2, 1.0, 3.0):
+                for n in (3, 8, None):
+                    if angle is not None and n is not None and angle / n > math.pi - 0.2:
+                        continue
+                    out.append({"fn": "revolve", "args": {"profile": ring, "angle": angle, "cap": angle is not None, "sections": n, "profile_name": name},
+                                "placement": "none", "T": None, "cls": "profile=open_ring"})
+    # (d) sweeps that must be prisms up to 2%: every round, new random paths
+    offc = {"shell": [[0.0, 0.0], [2.0, 0.0], [2.0, 1.0], [0.0, 1.0]]}
+    for pole in ("through", "start", "near", "away", "away"):
+        pts, wiggle = _near_prism_path(rnd, pole)
+        out.append({"fn": "sweep_polygon", "placement": "none", "cls": "path=near_straight pole=%s" % pole,
+                    "args": {"polygon": rnd.choice([offc, SWEEP_POLYGONS[0], SWEEP_POLYGONS[1]]), "path_kind": "explicit", "path_class": "near_straight:" + pole,
+                             "points": pts.tolist(), "wiggle": wiggle, "near_prism": True, "cap": True, "engine": eng}})
+    for pole in ("through", "away"):
+        # a smooth planar S curve (tangent back to its first direction), 200 samples, in a vertical / a tilted plane
+        z = np.linspace(0, 2 * math.pi, 200)
+        az = U(0, 2 * math.pi)
+        P = np.column_stack([0.3 * np.sin(z) * math.cos(az), 0.3 * np.sin(z) * math.sin(az), z]) * U(1, 4)
+        if pole == "away":
+            # the same curve laid down: Z -> X, then turned about X
+            c, sn = math.cos(az), math.sin(az)
+            P = np.column_stack([P[:, 2], P[:, 0] * c - P[:, 1] * sn, P[:, 0] * sn + P[:, 1] * c])
+        out.append({"fn": "sweep_polygon", "placement": "none", "cls": "path=smooth_planar pole=%s" % pole,
+                    "args": {"polygon": rnd.choice([offc, SWEEP_POLYGONS[0]]), "path_kind": "explicit", "path_class": "smooth_planar:" + pole,
+                             "points": P.tolist(), "near_prism": True, "cap": True, "engine": eng}})
+    # (e) parameter arrays written through numpy routes
+    todo = []
+    for kind, p0 in UNIT_PRIMS:
+        for param in (("extents", "transform", "center") if kind == "Box" else ("transform", "center")):
+            for route in PARAM_WRITE_ROUTES:
+                if param == "center" and route != "kept_view":
+                    continue  # `primitive.center` is a new view on every access: same as transform otherwise
+                todo.append((kind, p0, param, route))
+    if rounds == 1:
+        # (Capsule / Extrusion meshes are large: they take part in the random rounds)
+        todo = [t for t in todo if t[0] in ("Box", "Sphere", "Cylinder")]
+    else:
+        if rnd.random() > 0.15:
+            # a stale Capsule costs two O(n^2) point-set comparisons of 1922 vertices: one round in seven
+            todo = [t for t in todo if t[0] != "Capsule"]
+        todo = rnd.sample(todo, 5)
+    for kind, p0, param, route in todo:
+        for between in (True, False):
+            def val():
+                return [U(0.5, 4), U(0.5, 4), U(0.5, 4)] if param == "extents" else [U(-5, 5), U(-5, 5), U(-5, 5)]
+            eds = [{"op": "param_write", "route": route, "param": param, "value": val(), "read_between": between,
+                    "inplace_op": bool(rnd.random() < 0.5), "tag": "param_write:" + route, "pre": list(PRIM_READS) if k == 0 else []}
+                   for k in range(2)]
+            out.append({"fn": "primitive", "kind": kind, "params": dict(p0), "U": (np.eye(4) if rounds == 1 else _rigid(run)).tolist(),
+                        "edits": eds, "rseed": 0})
+    # (f) moves below 1e-8: many on primitives of unit size, one on primitives of size 1e-6
+    tiny_rot = np.eye(4)
+    ang = 3e-9
+    tiny_rot[:2, :2] = [[math.cos(ang), -math.sin(ang)], [math.sin(ang), math.cos(ang)]]
+    for kind, p0 in (UNIT_PRIMS if rounds == 1 else [rnd.choice(UNIT_PRIMS)]):
+        step = [U(-9e-9, 9e-9), 9e-9 * rnd.choice([1, -1]), U(-9e-9, 9e-9)]
+        out.append({"fn": "primitive", "kind": kind, "params": dict(p0), "U": np.eye(4).tolist(), "rseed": 0, "edits": [
+            {"op": "repeat", "times": 400, "edit": {"op": "apply_translation", "value": step}, "tag": "move:below_1e-8", "pre": list(PRIM_READS)}]})
+        out.append({"fn": "primitive", "kind": kind, "params": dict(p0), "U": _rigid(run).tolist(), "rseed": 0, "edits": [
+            {"op": "repeat", "times": 400, "edit": {"op": "apply_transform", "value": tiny_rot.tolist()}, "tag": "move:below_1e-8", "pre": ["vertices"]}]})
+    for kind, p0 in (("Box", {"extents": [1e-6, 2e-6, 3e-6]}), ("Sphere", {"radius": 1e-6, "subdivisions": 1})):
+        out.append({"fn": "primitive", "kind": kind, "params": dict(p0), "U": np.eye(4).tolist(), "rseed": 0, "edits": [
+            {"op": "apply_translation", "value": [5e-9, -3e-9, 2e-9], "tag": "move:below_1e-8", "pre": ["vertices", "bounds"]}]})
+    return out
 
 
 def _rigid(run):
